@@ -24,6 +24,7 @@ package c03
 import (
 	"fmt"
 	"math/rand"
+	"os"
 	"path/filepath"
 	"regexp"
 	"sort"
@@ -121,6 +122,25 @@ func offendingLine(text, diag string) string {
 	return ""
 }
 
+var reDefType = regexp.MustCompile(`'(%[^']+)' defined with type '([^']+)' but expected '([^']+)'`)
+var reDigits = regexp.MustCompile(`\d+`)
+
+// wrongResultType recognises LLVM's "defined with type A but expected B" and names the opcode of the
+// defining instruction; numbers in the types are abstracted.
+func wrongResultType(text, diag string) (def, llvmTy, libTy string, ok bool) {
+	m := reDefType.FindStringSubmatch(diag)
+	if m == nil {
+		return "", "", "", false
+	}
+	for _, l := range strings.Split(text, "\n") {
+		l = strings.TrimSpace(l)
+		if strings.HasPrefix(l, m[1]+" = ") {
+			return opcodeOf(l), reDigits.ReplaceAllString(m[2], "N"), reDigits.ReplaceAllString(m[3], "N"), true
+		}
+	}
+	return "", "", "", false
+}
+
 func normDiag(d string) string {
 	d = strings.Split(d, "\n")[0]
 	d = regexp.MustCompile(`<stdin>:\d+:\d+: `).ReplaceAllString(d, "")
@@ -159,6 +179,13 @@ func evaluate(tabs *schema.Tables, p *schema.Prog, full bool) (o outcome) {
 		if !ok {
 			o.disagree = true
 			line := offendingLine(o.libText, diag)
+			if def, from, to, ok := wrongResultType(o.libText, diag); ok {
+				// a value is used with a type other than the one LLVM derives for its definition:
+				// the library computed (and cached) a wrong result type for the defining instruction
+				o.sig = "C03|result-type|" + def + "|LLVM: " + from + ", library: " + to
+				o.what = fmt.Sprintf("the library types the result of %s as %s where LLVM derives %s, so a later use does not verify: %s\n--- printed:\n%s", def, to, from, mbt.Truncate(diag, 300), o.libText)
+				return
+			}
 			o.sig = "C03|llvm-as|" + subject(p, line) + "|rejected|" + normDiag(diag)
 			o.what = fmt.Sprintf("LLVM rejects the printed module of program %s: %s\n--- printed:\n%s--- the same program rendered from the Schema templates (accepted by LLVM):\n%s", p.ID, mbt.Truncate(diag, 300), o.libText, o.specText)
 			return
@@ -351,16 +378,24 @@ func Run(tier, replay string) {
 		rep.Finish()
 	}
 
+	stages := os.Getenv("VERIF_C03_STAGES") // development aid: comma-separated subset of cover,exec,execsim,mix
+	on := func(s string) bool { return stages == "" || strings.Contains(","+stages+",", ","+s+",") }
+
 	// coverage family: exhaustive
-	cover := tlcProgs(rep, mbt.TLCOpts{Cfg: "BuildCover.cfg"})
-	runAll(rep, &tabs, cover, all, st)
+	if on("cover") {
+		cover := tlcProgs(rep, mbt.TLCOpts{Cfg: "BuildCover.cfg"})
+		runAll(rep, &tabs, cover, all, st)
+	}
 
 	// executable integer programs: exhaustive at depth 1 over boundary constants
 	consts := map[string]string{"ExecWidths": "{1, 8, 32}"}
 	if thorough {
 		consts = map[string]string{"ExecWidths": "{1, 8, 16, 32, 64}", "BoundarySmall": "FALSE"}
 	}
-	exec1 := tlcProgs(rep, mbt.TLCOpts{Cfg: "BuildExec.cfg", Consts: consts, Timeout: 30 * time.Minute})
+	var exec1 []schema.Prog
+	if on("exec") {
+		exec1 = tlcProgs(rep, mbt.TLCOpts{Cfg: "BuildExec.cfg", Consts: consts, Timeout: 30 * time.Minute})
+	}
 	// every 16th of these also goes through the LLVM comparison and the parser (their kinds are in the coverage family)
 	pick := map[*schema.Prog]bool{}
 	for i := range exec1 {
@@ -371,15 +406,18 @@ func Run(tier, replay string) {
 	runAll(rep, &tabs, exec1, func(p *schema.Prog) bool { return pick[p] }, st)
 
 	// random behaviours: deeper integer programs and mixes of all context-free kinds
-	nExec, nMix := 150, 120
+	nExec, nMix := 100, 80
 	if thorough {
-		nExec, nMix = 2500, 1500
+		nExec, nMix = 1200, 500
 	}
-	execR := tlcProgs(rep, mbt.TLCOpts{Cfg: "BuildExec.cfg", Simulate: fmt.Sprintf("num=%d", nExec), Depth: 7,
-		Consts: map[string]string{"ExecWidths": "{1, 8, 16, 32, 64}", "ExecExhaustive": "FALSE", "BoundarySmall": "FALSE", "MaxSteps": "6"}})
-	runAll(rep, &tabs, execR, func(p *schema.Prog) bool { return len(p.Fn.Blocks[0].Insts)%4 == 0 }, st)
-	mix := tlcProgs(rep, mbt.TLCOpts{Cfg: "BuildMix.cfg", Simulate: fmt.Sprintf("num=%d", nMix), Depth: 7})
-	runAll(rep, &tabs, mix, all, st)
+	if on("execsim") {
+		execR := tlcProgs(rep, mbt.TLCOpts{Cfg: "BuildExecSim.cfg", Simulate: fmt.Sprintf("num=%d", nExec), Depth: 7})
+		runAll(rep, &tabs, execR, func(p *schema.Prog) bool { return len(p.Fn.Blocks[0].Insts)%4 == 0 }, st)
+	}
+	if on("mix") {
+		mix := tlcProgs(rep, mbt.TLCOpts{Cfg: "BuildMix.cfg", Simulate: fmt.Sprintf("num=%d", nMix), Depth: 7})
+		runAll(rep, &tabs, mix, all, st)
+	}
 
 	// a discarded program is a specification error; too many make the run worthless
 	nd := 0
@@ -395,7 +433,7 @@ func Run(tier, replay string) {
 			missing = append(missing, tabs.Kinds[i].Kind)
 		}
 	}
-	if len(missing) > 0 {
+	if len(missing) > 0 && stages == "" {
 		mbt.Infra("kinds never constructed: %v", missing)
 	}
 	rep.Programs = st.programs
